@@ -266,9 +266,13 @@ fn ops_case(line: &str) -> String {
 // (canonical path) that store B does not have with the same size (after `check`: no pack).
 // Line: `seed nsteps stray`.
 fn e2e_case(line: &str) -> String {
-    match e2e_inner(line) {
-        Ok(s) => s,
-        Err(e) => format!("error {e:#}").replace('\n', " "),
+    match std::panic::catch_unwind(|| e2e_inner(line)) {
+        Ok(Ok(s)) => s,
+        Ok(Err(e)) => format!("error {e:#}").replace('\n', " "),
+        Err(p) => {
+            let msg = p.downcast_ref::<String>().cloned().or_else(|| p.downcast_ref::<&str>().map(|s| s.to_string())).unwrap_or_default();
+            format!("panic {}", &msg.replace('\n', " ")[..msg.len().min(300)])
+        }
     }
 }
 
